@@ -263,6 +263,17 @@ func (d *Decoded) State(cmpFor func(name string) int) *MState {
 	return ms
 }
 
+// curValStored maps a value to the bytes the case's value callbacks store for it
+// (nil: stored as is).  Set per case by World.run.
+var curValStored func(v []byte) []byte
+
+func storedForm(v []byte) []byte {
+	if curValStored != nil {
+		return curValStored(v)
+	}
+	return v
+}
+
 // CompareDecoded returns "" if the decoded state equals the model.
 func CompareDecoded(d *Decoded, ms *MState) string {
 	if len(d.Colls) != len(ms.Colls) {
@@ -283,8 +294,8 @@ func CompareDecoded(d *Decoded, ms *MState) string {
 			if !bytes.Equal(it.Key, k) {
 				return fmt.Sprintf("collection %q position %d: decoded key %s, model %s", name, i, qb(it.Key), qb(k))
 			}
-			if !bytes.Equal(it.Val, mi.Val) {
-				return fmt.Sprintf("collection %q key %s: decoded value %s, model %s", name, qb(k), qb(it.Val), qb(mi.Val))
+			if want := storedForm(mi.Val); !bytes.Equal(it.Val, want) {
+				return fmt.Sprintf("collection %q key %s: decoded value bytes %s, expected %s", name, qb(k), qb(it.Val), qb(want))
 			}
 			if it.Prio != mi.Prio {
 				return fmt.Sprintf("collection %q key %s: decoded priority %d, model %d", name, qb(k), it.Prio, mi.Prio)
